@@ -225,6 +225,9 @@ def property_violation(case, out):
                 for p in l[1]:
                     if not any(p in g for g in groups) and -1 not in o["ok"]:
                         return ("unknown-protein-not-reported-missing", si, l)
+                # the missing marker appears ONLY when some listed protein is in no group (a repeated identifier is not a missing one)
+                if -1 in o["ok"] and all(any(p in g for g in groups) for p in l[1]):
+                    return ("missing-marker-although-every-listed-protein-is-grouped", si, l)
                 # ... and a protein that is in a group has that group's position in the answer (never silently "missing")
                 for p in l[1]:
                     pos = [i for i, g in enumerate(groups) if p in g]
